@@ -419,7 +419,9 @@ def oracle_c07(lhs, obs, group=None):
                 signkey = p[3].split(":")[1] if ":" in p[3] else None
                 # corrupt: 1 = one HMAC bit flipped; 2..4 = an illegal-size integrity attribute appended to an
                 # UNSIGNED message (ignored when the message is signed)
-                genuine = signkey is not None and signkey == remote and p[4] not in ("1", "5", "6", "7", "8")
+                # 5..8 = (SHA-256-signed messages only) the integrity attribute replaced by an illegal-size correct prefix of the HMAC
+                genuine = (signkey is not None and signkey == remote and p[4] != "1"
+                           and not (p[3].startswith("2:") and p[4] in ("5", "6", "7", "8")))
                 if head.startswith("resp:"):
                     if sealed[tid] and not genuine:
                         return f"call {i}: response delivered for a sealed request although it does not validate under the remote credentials (signed {p[3]}, corrupt {p[4]}, remote key {remote})"
